@@ -9,6 +9,9 @@
 //!   vote <term>:<node>:<0|1>        | committed <idx>:<term> | committed none
 //!   peer <id> <port>
 //!   wopen | wappend <len>:<seed> | wreadall | wclose        (the bare WAL wrapper)
+//!   sm new | sm apply <idx>:<term>:<payload>[:r] ... | sm state      (C19: the state-machine adapter; payload =
+//!       b (blank) | m<id> (membership) | s<k>=<v> | g<k> | d<k> | x (a command the application rejects); `:r` = the
+//!       entry carries a responder, as on the node that proposed it)
 #![allow(dead_code, unused_imports, unused_variables, unused_mut)]
 mod error {
     #[derive(Debug)]
@@ -46,6 +49,45 @@ mod store {
     use std::ops::RangeBounds;
     use std::sync::Arc;
     include!(concat!(env!("OUT_DIR"), "/storage_slice.rs"));
+}
+
+#[path = "/repo/octopii/src/state_machine.rs"]
+mod state_machine;
+
+/// C19: the Raft state-machine adapter (`MemStateMachine`), sliced verbatim from storage.rs
+mod smstore {
+    use crate::raftshim as openraft;
+    use crate::raftshim::alias::SnapshotDataOf;
+    use crate::raftshim::*;
+    use crate::state_machine::StateMachine;
+    use std::collections::BTreeMap;
+    use std::io::{self, Cursor};
+    use std::sync::atomic::{AtomicU64, Ordering};
+    use std::sync::Arc;
+    include!(concat!(env!("OUT_DIR"), "/sm_slice.rs"));
+    impl MemStateMachine {
+        pub fn peek(&self) -> StateMachineData {
+            tokio::block_on(async { self.state_machine.read().await.clone() })
+        }
+    }
+}
+
+/// the application below the adapter: octopii's `KvStateMachine`, with every command handed to it recorded
+struct RecordingKv {
+    inner: state_machine::KvStateMachine,
+    seen: std::sync::Mutex<Vec<Vec<u8>>>,
+}
+impl state_machine::StateMachineTrait for RecordingKv {
+    fn apply(&self, command: &[u8]) -> std::result::Result<bytes::Bytes, String> {
+        self.seen.lock().unwrap().push(command.to_vec());
+        self.inner.apply(command)
+    }
+    fn snapshot(&self) -> Vec<u8> {
+        self.inner.snapshot()
+    }
+    fn restore(&self, data: &[u8]) -> std::result::Result<(), String> {
+        self.inner.restore(data)
+    }
 }
 
 mod peers {
@@ -107,6 +149,7 @@ fn main() {
             known.entry(bytes_of(a.parse().unwrap(), b.parse().unwrap())).or_insert_with(|| t[1].to_string());
         }
     }
+    let mut adapter: Option<(Arc<smstore::MemStateMachine>, Arc<RecordingKv>)> = None;
     let mut log: Option<wal::WriteAheadLog> = None;
     let mut node: Option<Node> = None;
     let mut idx = start;
@@ -123,6 +166,7 @@ fn main() {
             if t[0] == "restart" {
                 log = None;
                 node = None;
+                adapter = None;
                 std::thread::sleep(std::time::Duration::from_millis(20));
             }
             writeln!(out, "ok").unwrap();
@@ -132,6 +176,53 @@ fn main() {
         }
         let r = std::panic::catch_unwind(std::panic::AssertUnwindSafe(|| -> String {
             match t[0] {
+                "sm" => match t[1] {
+                    "new" => {
+                        let kv = Arc::new(RecordingKv { inner: state_machine::KvStateMachine::in_memory(), seen: Default::default() });
+                        adapter = Some((smstore::new_mem_state_machine(kv.clone()), kv));
+                        "ok".into()
+                    }
+                    "apply" => {
+                        let Some((a, _)) = adapter.as_mut() else { return "err:closed".into() };
+                        let sink = std::rc::Rc::new(std::cell::RefCell::new(Vec::new()));
+                        let mut items = std::collections::VecDeque::new();
+                        for tok in &t[2..] {
+                            let f: Vec<&str> = tok.split(':').collect();
+                            let (index, term): (u64, u64) = (f[0].parse().unwrap(), f[1].parse().unwrap());
+                            let log_id = LogId { leader_id: LeaderId { term, node_id: 1 }, index, _c: PhantomData };
+                            let p = f[2];
+                            let payload = match p.as_bytes()[0] {
+                                b'b' => EntryPayload::Blank,
+                                b'm' => EntryPayload::Membership(Membership { id: p[1..].parse().unwrap(), _c: PhantomData }),
+                                b's' => {
+                                    let (k, v) = p[1..].split_once('=').unwrap();
+                                    EntryPayload::Normal(AppEntry(format!("SET {k} {v}").into_bytes()))
+                                }
+                                b'g' => EntryPayload::Normal(AppEntry(format!("GET {}", &p[1..]).into_bytes())),
+                                b'd' => EntryPayload::Normal(AppEntry(format!("DELETE {}", &p[1..]).into_bytes())),
+                                _ => EntryPayload::Normal(AppEntry(b"FROB".to_vec())),
+                            };
+                            let responder = if f.get(3).copied() == Some("r") { Some(Responder { index, sink: sink.clone(), _c: PhantomData }) } else { None };
+                            items.push_back(Ok((Entry { log_id, payload }, responder)));
+                        }
+                        let r = tokio::block_on(a.apply(VecStream(items)));
+                        let resp = sink.borrow().iter().map(|(i, b)| format!("{}={}", i, String::from_utf8_lossy(b))).collect::<Vec<_>>().join(",");
+                        format!("{} resp=[{}]", if r.is_ok() { "ok" } else { "err" }, resp)
+                    }
+                    "state" => {
+                        let Some((a, kv)) = adapter.as_mut() else { return "err:closed".into() };
+                        let (applied, mem) = tokio::block_on(a.applied_state()).unwrap();
+                        let d = a.peek();
+                        assert!(d.last_applied_log == applied && d.last_membership == mem);
+                        let cmds = kv.seen.lock().unwrap().iter().map(|c| String::from_utf8_lossy(c).replace(' ', "_")).collect::<Vec<_>>().join(",");
+                        // the application's state, read back through its own commands' vocabulary: its snapshot, decoded
+                        let m: std::collections::HashMap<Vec<u8>, Vec<u8>> = bincode::deserialize(&state_machine::StateMachineTrait::snapshot(&**kv)).unwrap();
+                        let mut kvs: Vec<String> = m.iter().map(|(k, v)| format!("{}={}", String::from_utf8_lossy(k), String::from_utf8_lossy(v))).collect();
+                        kvs.sort();
+                        format!("applied={} membership={}/{} cmds=[{}] kv=[{}]", show_lid(&applied), show_lid(&mem.log_id), mem.membership.id, cmds, kvs.join(","))
+                    }
+                    _ => "bad-op".into(),
+                },
                 "wopen" => {
                     log = None;
                     match tokio::block_on(wal::WriteAheadLog::new(datadir.join("raft.wal"), 0, zero)) {
